@@ -139,7 +139,7 @@ func c18Invocations(a *Abs, full bool) []inv {
 		})
 	})
 	// branch / switch / rev-parse
-	names := []taggedArg{{"main", nil}, {"b", nil}, {"nope", nil}, {"a/b", []string{"ref-name-hostile"}}, {"..", []string{"ref-name-hostile"}}, {"a(b", []string{"name-has-regexp-meta"}}, {"", []string{"arg:empty"}}, {long300, []string{"arg:long-name"}}}
+	names := []taggedArg{{"main", nil}, {"b", nil}, {"B", nil}, {"nope", nil}, {"a/b", []string{"ref-name-hostile"}}, {"..", []string{"ref-name-hostile"}}, {"a(b", []string{"name-has-regexp-meta"}}, {"", []string{"arg:empty"}}, {long300, []string{"arg:long-name"}}}
 	for _, n := range names {
 		t := unionTags(st, n.tags)
 		add(false, t, "branch", n.v)
@@ -236,7 +236,7 @@ func c18Judge(c *Ctx, pre *State, iv inv, res *Result, post *State, module strin
 
 func checkC18(e *RunEnv) *CheckResult {
 	odd := append(seedS0(), Write("a(b", "x\n"), Write("x y", "x\n"), Write("d/x", "x\n"), Write("a+b", "x\n"), Write("é", "x\n"), Run("add", "a(b", "x y", "d", "a+b", "é"), Run("commit", "-m", "odd names"), Delete("a+b"))
-	seeds := append(allSeeds(), Seed{"odd-names", odd}, Seed{"no-repo", []Step{Write("a", "x\n")}}, Seed{"init-only", []Step{Run("init")}})
+	seeds := append(allSeeds(), Seed{"odd-names", odd}, Seed{"mixed-case-branches", append(seedS1(), Run("branch", "C"), Run("branch", "d"), Run("branch", "Ab"))}, Seed{"no-repo", []Step{Write("a", "x\n")}}, Seed{"init-only", []Step{Run("init")}})
 	spec := &Spec{Seeds: seeds, Depth: 0}
 	var ncase, nbases int
 	var module string
